@@ -62,7 +62,7 @@ def worker_target(i):
 
 
 def run_check(pid, repo):
-    env = dict(os.environ, VERIF_REPO=repo, VERIF_SELFTEST="1")
+    env = dict(os.environ, VERIF_REPO=repo, VERIF_SELFTEST="1", VERIF_FACTS_DIR=os.path.join(repo, ".verif-facts"))
     if getattr(_slot, "i", None) is not None:
         env["VERIF_TARGET"] = worker_target(_slot.i)
     r = subprocess.run([os.path.join(VERIF, "check"), pid], env=env, stdout=subprocess.PIPE, stderr=subprocess.STDOUT, text=True)
